@@ -90,6 +90,9 @@ func vfLimitServerCheck(c vfLimitCase) error {
 		// which the RPC library also rejects; the property is about the uncompressed size
 		c.Zero = true
 	}
+	if c.Stream == "unary-get" {
+		c.Protocol = 1 // (GET exists in the Connect protocol only; the message travels in the URL)
+	}
 	srv, err := vfLimitServer(c.Limit)
 	if c.GRPCImpl && (c.Protocol == 2 || c.Protocol == 3) && c.Compression <= 2 && c.Stream != "unary-json-direct" {
 		srv, err = vfLimitGRPCServer(c.Limit, c.Protocol)
@@ -143,6 +146,14 @@ func vfLimitServerCheck(c vfLimitCase) error {
 			return nil
 		}
 		msgs = []proto.Message{first, second}
+	} else if c.Stream == "unary-get" {
+		method = "IdempotentUnary"
+		m := &conformancev1.IdempotentUnaryRequest{ResponseDefinition: &conformancev1.UnaryResponseDefinition{
+			Response: &conformancev1.UnaryResponseDefinition_ResponseData{ResponseData: []byte("ok")}}}
+		if !vfSizedMessage(m, "request_data", size, c.Zero) {
+			return nil
+		}
+		msgs = []proto.Message{m}
 	} else {
 		m := &conformancev1.UnaryRequest{ResponseDefinition: &conformancev1.UnaryResponseDefinition{
 			Response: &conformancev1.UnaryResponseDefinition_ResponseData{ResponseData: []byte("ok")}}}
@@ -160,8 +171,9 @@ func vfLimitServerCheck(c vfLimitCase) error {
 		TestName: name, HttpVersion: conformancev1.HTTPVersion_HTTP_VERSION_2, Protocol: conformancev1.Protocol(c.Protocol),
 		Codec: conformancev1.Codec_CODEC_PROTO, Compression: conformancev1.Compression(c.Compression),
 		Host: viaHost, Port: viaPort, Service: proto.String("connectrpc.conformance.v1.ConformanceService"), Method: proto.String(method),
-		StreamType:     streamType,
-		RequestHeaders: []*conformancev1.Header{{Name: "X-Test-Case-Name", Value: []string{name}}},
+		StreamType:       streamType,
+		RequestHeaders:   []*conformancev1.Header{{Name: "X-Test-Case-Name", Value: []string{name}}},
+		UseGetHttpMethod: c.Stream == "unary-get",
 	}
 	for _, m := range msgs {
 		a, err := vfAny(m)
@@ -267,12 +279,15 @@ func TestVerifC19LimitServer(t *testing.T) {
 				Limit:    rapid.SampledFrom([]int{1024, 1024, 200 * 1024, 3000, 70000}).Draw(t, "limit"),
 				Delta:    rapid.SampledFrom([]int{-1, 0, 0, 1, 1, 2, -7, 50}).Draw(t, "delta"),
 				Protocol: int32(rapid.IntRange(1, 3).Draw(t, "protocol")), Compression: int32(rapid.IntRange(1, 6).Draw(t, "compression")),
-				Stream: rapid.SampledFrom([]string{"unary", "unary", "client-stream", "server-stream", "bidi-half-first", "bidi-half-later", "bidi-full-first", "unary-json-direct"}).Draw(t, "stream"), Zero: rapid.Bool().Draw(t, "zero"), GRPCImpl: rapid.IntRange(0, 2).Draw(t, "grpcImpl") == 0,
+				Stream: rapid.SampledFrom([]string{"unary", "unary", "client-stream", "server-stream", "bidi-half-first", "bidi-half-later", "bidi-full-first", "unary-json-direct", "unary-get"}).Draw(t, "stream"), Zero: rapid.Bool().Draw(t, "zero"), GRPCImpl: rapid.IntRange(0, 2).Draw(t, "grpcImpl") == 0,
 			}
 		},
 		Check: vfLimitServerCheck,
 		Classify: func(c vfLimitCase) ([]string, bool) {
 			cl := []string{fmt.Sprintf("delta%+d", c.Delta), conformancev1.Compression(c.Compression).String()}
+			if c.Stream == "unary-get" {
+				cl = append(cl, "connect-get")
+			}
 			if c.GRPCImpl && (c.Protocol == 2 || c.Protocol == 3) && c.Compression <= 2 && c.Stream != "unary-json-direct" {
 				cl = append(cl, "grpc-go-server")
 			}
